@@ -641,7 +641,19 @@ func runC15Concurrent(t *simrt.Tape, o Opts, pi, ci int, syn, expOn bool) Outcom
 		}
 		leaving = len(notified)
 		before := len(order)
-		c.Close()
+		if nclosers := 1 + t.Choose(3, "closers"); nclosers > 1 {
+			// several owners shut the cache down at once (a server's signal handler and its deferred
+			// clean-up): every Close returns and the entries are notified once
+			var cl []*simrt.Task
+			for i := 0; i < nclosers; i++ {
+				cl = append(cl, s.Go("closer", func() { c.Close() }))
+			}
+			for _, tk := range cl {
+				s.Join(tk)
+			}
+		} else {
+			c.Close()
+		}
 		if !syn {
 			s.Idle()
 		}
